@@ -125,6 +125,10 @@ View(k, r, c) ==
 Wire(k, r) == View(k, r, r.c)
 Missing(k) == [k |-> k, x |-> FALSE, t |-> "void", v |-> 0, u |-> <<>>, ca |-> 0, cb |-> 0, ua |-> 0, ub |-> 0, ea |-> 0]
 
+\* a read that had to hide a pre-epoch timestamp of one of these records
+HidDv(f) == IF D("PreEpochInvisible") /\ \E k \in DOMAIN f : f[k].ca < 0 \/ f[k].ua < 0 \/ f[k].ea < 0
+            THEN {"PreEpochInvisible"} ELSE {}
+
 KeysIn(f) == SelectSeq(KeyOrder, LAMBDA k : Has(f, k))
 WireAll(f) == LET ks == KeysIn(f) IN [i \in DOMAIN ks |-> Wire(ks[i], f[ks[i]])]
 
@@ -237,18 +241,18 @@ NotThere(S) == {Err(S, "FailedPrecondition", {})}
 \* a read that is answered although the swamp holds nothing needed the EmptySwampExists deviation
 Lenient(S) == IF IsEmpty(S.store) THEN {"EmptySwampExists"} ELSE {}
 
+Sub(f, ks) == [k \in (DOMAIN f) \cap Range(ks) |-> f[k]]
+
 DoGet(q, S) ==
   IF ~Exists(S) THEN NotThere(S)
   ELSE {Out(S, [err |-> "", sx |-> TRUE,
                 tr |-> [i \in DOMAIN q.keys |-> IF Has(S.store, q.keys[i]) THEN Wire(q.keys[i], S.store[q.keys[i]])
-                                                ELSE Missing(q.keys[i])]], Lenient(S))}
+                                                ELSE Missing(q.keys[i])]], Lenient(S) \cup HidDv(Sub(S.store, q.keys)))}
 
-DoGetAll(q, S) == IF ~Exists(S) THEN NotThere(S) ELSE {Out(S, [err |-> "", tr |-> WireAll(S.store)], Lenient(S))}
-
-Sub(f, ks) == [k \in (DOMAIN f) \cap Range(ks) |-> f[k]]
+DoGetAll(q, S) == IF ~Exists(S) THEN NotThere(S) ELSE {Out(S, [err |-> "", tr |-> WireAll(S.store)], Lenient(S) \cup HidDv(S.store))}
 
 DoGetByKeys(q, S) ==
-  IF ~Exists(S) THEN NotThere(S) ELSE {Out(S, [err |-> "", tr |-> WireAll(Sub(S.store, q.keys))], Lenient(S))}
+  IF ~Exists(S) THEN NotThere(S) ELSE {Out(S, [err |-> "", tr |-> WireAll(Sub(S.store, q.keys))], Lenient(S) \cup HidDv(Sub(S.store, q.keys)))}
 
 DoCount(q, S) ==
   IF ~Exists(S) THEN NotThere(S) ELSE {Out(S, [err |-> "", sx |-> TRUE, n |-> Cardinality(DOMAIN S.store)], Lenient(S))}
@@ -286,7 +290,7 @@ DoShiftByKeys(q, S) ==
            tr == [i \in DOMAIN ks |-> View(ks[i], hit[ks[i]], CloneOf(hit[ks[i]].c))]
            plain == [i \in DOMAIN ks |-> Wire(ks[i], hit[ks[i]])]
        IN {Out(AutoDestroy(DropAll(S, q.keys, 1)), [err |-> "", tr |-> tr],
-               Lenient(S) \cup (IF tr = plain THEN {} ELSE {"U32PushWrongType"}))}
+               Lenient(S) \cup HidDv(hit) \cup (IF tr = plain THEN {} ELSE {"U32PushWrongType"}))}
 
 DoDestroy(q, S) == {Out(Destroyed(S), [err |-> ""], {})}
 
@@ -348,7 +352,11 @@ IncWith(q, S0, m) ==
 DoInc(q, S) ==
   LET there == Has(S.store, q.k)
       voidKey == there /\ TypeOf(S.store[q.k].c) = "void"
-  IN IF ~there THEN {IncWith(q, S, q.mn)}
+      \* as built the descriptor is chosen by the content type of the object at hand, so a left-over
+      \* in-flight object that already holds the typed 0 counts as "existing"
+      leftover == PendUsed(S, q.k) /\ TypeOf(S.pend[q.k].c) # "void"
+  IN IF leftover THEN {IncWith(q, S, q.mx)}
+     ELSE IF ~there THEN {IncWith(q, S, q.mn)}
      ELSE IF voidKey THEN {IncWith(q, S, q.mn), IncWith(q, S, q.mx)}   \* "existed before" is ambiguous for a key without a value
      ELSE {IncWith(q, S, q.mx)}
 
@@ -441,7 +449,7 @@ DoShiftExpired(q, S) ==
   ELSE LET cand == ExpiredKeys(S)
            lim == IF q.n = 0 \/ q.n > Cardinality(cand) THEN Cardinality(cand) ELSE q.n
        IN {Out(AutoDestroy(DropAll(S, SubSeq(s, 1, lim), 1)),
-               [err |-> "", tr |-> [i \in 1..lim |-> View(s[i], S.store[s[i]], CloneOf(S.store[s[i]].c))]], Lenient(S))
+               [err |-> "", tr |-> [i \in 1..lim |-> View(s[i], S.store[s[i]], CloneOf(S.store[s[i]].c))]], Lenient(S) \cup HidDv(Sub(S.store, s)))
            : s \in SortedByExpiry(S, cand)}
 
 \* GetByIndex on the expiration index: the records that have an expiry, in expiry order
@@ -450,7 +458,7 @@ DoGetByExpiry(q, S) ==
   ELSE LET ks == {k \in DOMAIN S.store : S.store[k].ea # 0}
        IN {Out(S, [err |-> "", tr |-> [i \in DOMAIN s |-> Wire(IF q.ord = "desc" THEN s[Len(s) + 1 - i] ELSE s[i],
                                                                 S.store[IF q.ord = "desc" THEN s[Len(s) + 1 - i] ELSE s[i]])]],
-               Lenient(S))
+               Lenient(S) \cup HidDv(S.store))
            : s \in SortedByExpiry(S, ks)}
 
 -----------------------------------------------------------------------------
@@ -467,7 +475,7 @@ Reloaded(r) ==
   IN IF D("GobZero") THEN [Clean(r) EXCEPT !.c = c2] ELSE Clean(r)
 
 DoCloseReload(q, S) ==
-  IF S.mode = "mem" THEN {Out(S, [err |-> ""], {})}
+  IF S.mode = "mem" THEN {Out(S, [err |-> ""], SummonedEmpty(S))}    \* not applicable to in-memory swamps
   ELSE LET exact == [k \in DOMAIN S.store |-> Clean(S.store[k])]
            \* the file after the closing write: queued records are written from memory, the others
            \* are whatever the last write left
@@ -477,7 +485,10 @@ DoCloseReload(q, S) ==
            st2 == [k \in DOMAIN src |-> Reloaded(src[k])]
            dv == (IF \E k \in DOMAIN src : Reloaded(src[k]) # src[k] THEN {"GobZero"} ELSE {})
                  \cup (IF src # exact THEN {"IncMetaNotSaved"} ELSE {})
-       IN {Out([S EXCEPT !.store = st2, !.pend = NoMap, !.disk = src, !.wq = {}, !.open = ~IsEmpty(st2)], [err |-> ""], dv)}
+           \* as built an empty swamp that was summoned has a file, so it is still there after the reload
+           open2 == IF D("EmptySwampExists") THEN S.open ELSE ~IsEmpty(st2)
+       IN {Out([S EXCEPT !.store = st2, !.pend = NoMap, !.disk = src, !.wq = {}, !.open = open2], [err |-> ""],
+               dv \cup (IF open2 /\ IsEmpty(st2) THEN {"EmptySwampExists"} ELSE {}))}
 
 -----------------------------------------------------------------------------
 
